@@ -809,6 +809,12 @@ func (w *World) checkHandleView(hs *HandleState, cr *CallRec) {
 	if d := v.View.Diff(got); d != "" {
 		if w.Sequential {
 			prop = "C03"
+			if cr.Kind == OpAdd && cr.Class == "lockfail" {
+				// C09: "after a failed Add the handle has been refreshed to
+				// the current list" - the names are current (checked above),
+				// what is read through them is not
+				w.violate("C09", "not-refreshed", "view/"+cr.Kind, fmt.Sprintf("after a failed Add handle %d shows version %d's tables but not their state: %s", hs.Idx, v.N, d))
+			}
 			if cr.Replaces > 0 {
 				// the compacting handle's view changed across its own compaction
 				w.violate("C07", "compaction-changed-view", "handle-scan/"+cr.Kind, fmt.Sprintf("handle %d after its compaction (version %d): %s", hs.Idx, v.N, d))
